@@ -29,7 +29,36 @@ class Opaque:
         return 'Opaque()'
 
 
-BAD_VALUES = [('object', Opaque()), ('set', {1, 2}), ('bytes', b'x'), ('complex', 1j), ('frozenset', frozenset({1}))]
+class YesMan:
+    """An object that answers every attribute lookup truthily (a Mock, a lazy attribute proxy)."""
+
+    def __getattr__(self, name):
+        if name.startswith('__') and name.endswith('__'):
+            raise AttributeError(name)
+        return True
+
+    def __repr__(self):
+        return 'YesMan()'
+
+
+class MyFloat(float):
+    pass
+
+
+class MyStr(str):
+    pass
+
+
+class MyInt(int):
+    pass
+
+
+import collections as _collections  # noqa: E402
+
+BAD_VALUES = [('object', Opaque()), ('set', {1, 2}), ('bytes', b'x'), ('complex', 1j), ('frozenset', frozenset({1})),
+              ('attribute-proxy', YesMan()), ('range', range(2)), ('bytearray', bytearray(b'x')), ('deque', _collections.deque([1]))]
+# instances of subclasses of the scalar types are scalars too
+SUBCLASS_SCALARS = [MyFloat(1.5), MyStr('s'), MyInt(3)]
 BAD_KEYS = [('int-key', 1), ('none-key', None), ('tuple-key', ('a',)), ('enum-key', A.Color.RED)]
 
 
@@ -203,6 +232,9 @@ def check_supported(args):
                 want = ('derived', canon(x.p))
                 if getattr(x, 'derived', None) != want:
                     bad('copy-lacks-post-init', f"protocol {proto}: post_init-derived attribute is {getattr(x, 'derived', '<missing>')!r}, want {want!r}")
+                if getattr(x, 'derived_key', None) != x.cache_key or getattr(x, 'derived_is_task', None) is not True:
+                    bad('copy-post-init-too-early', f"protocol {proto}: post_init of the copy saw cache_key {getattr(x, 'derived_key', '<missing>')!r} / is_task "
+                                                    f"{getattr(x, 'derived_is_task', '<missing>')!r} (the task has key {x.cache_key})")
         if b'CTX' in blob or b'big' in blob:
             bad('copy-carries-bytes', f'protocol {proto}: context/result bytes inside the pickle')
         for path, col in walk_collections(c.p):
@@ -344,6 +376,7 @@ def run(tier: str, seed: int) -> Result:
         sup += trees(1, FULL, width=1, task_types=('Leaf',), inner_leaves=FULL)
         # several distinct nested tasks of a never-cached type (and of a second cache format) in one parameter
         sup += trees(2, TINY[:2], width=2, task_types=('NoCacheT', 'JFoo'), inner_leaves=TINY[:2])
+        sup += trees(1, SUBCLASS_SCALARS, width=1, task_types=('Leaf', 'PFoo'), inner_leaves=SUBCLASS_SCALARS)
         protos = (2, 5)
         base_unsup = trees(2, TINY[:2], width=2, task_types=('Leaf',), inner_leaves=TINY[:2])
     else:
@@ -352,6 +385,7 @@ def run(tier: str, seed: int) -> Result:
         sup += trees(3, [1], width=2, task_types=('Leaf',), inner_leaves=[1])
         sup += trees(1, FULL, width=2, task_types=('Leaf',), inner_leaves=FULL)
         sup += trees(2, TINY, width=2, task_types=('NoCacheT', 'JFoo', 'Leaf'), inner_leaves=TINY)
+        sup += trees(2, SUBCLASS_SCALARS, width=2, task_types=('Leaf', 'PFoo'), inner_leaves=SUBCLASS_SCALARS)
         protos = (0, 1, 2, 3, 4, 5)
         base_unsup = trees(2, TINY[:3], width=2, task_types=('Leaf',), inner_leaves=TINY[:3])
     seen = set()
